@@ -226,8 +226,9 @@ def normalise (cls : String) (pos : List Op) (kw : List (String × Op)) : Option
         else some (pos, ("dim", Op.val (.int (0 - (ndim first : Int)))) :: kw)
   else if cls = "KernelLinearOperator" then
     -- `num_nonbatch_dimensions` (None or a dict) is replaced by a defaultdict
-    let kw' := kw.filter (fun p => p.1 != "num_nonbatch_dimensions")
-    some (pos, kw' ++ [("num_nonbatch_dimensions", Op.val (.str "dict"))])
+    if kw.any (·.1 = "num_nonbatch_dimensions") then
+      some (pos, kw.map (fun p => if p.1 = "num_nonbatch_dimensions" then (p.1, Op.val (.str "dict")) else p))
+    else some (pos, kw ++ [("num_nonbatch_dimensions", Op.val (.str "dict"))])
   else some (pos, kw)
 
 def hasKey {β : Type} (l : List (String × β)) (k : String) : Bool := l.any (·.1 = k)
@@ -459,6 +460,9 @@ def normalForm (cls : String) (args : List Op) (kw : List (String × Op)) : Bool
      | [] => false)
   else if cls = "CatLinearOperator" then
     (match args with | [] => false | _ :: _ => (match lookupInt kw "dim" with | some d => d < 0 | none => false))
+  else if cls = "KernelLinearOperator" then
+    kw.any (·.1 = "num_nonbatch_dimensions") &&
+    kw.all (fun p => p.1 != "num_nonbatch_dimensions" || (match p.2 with | .val (.str s) => s = "dict" | _ => false))
   else true
 
 def nodeOK (cfg : Cfg) (cls : String) (a : List Op) (dn : List String) (d : List Op) (nkw : KV) (hid : KV) : Bool :=
